@@ -12,12 +12,15 @@ def rnd (y : Rat) : Int :=
 /-- Python `round(x, 4)` on the exact value -/
 def round4 (x : Rat) : Rat := (rnd (x * 10000) : Rat) / 10000
 
-/-- `LinearCredit.__call__` -/
+/-- Python's `max(a, b)` on numbers -/
+def rmax (a b : Rat) : Rat := if a ≤ b then b else a
+
+/-- `LinearCredit.__call__` (after fix F14: the rounded credit is not allowed to drop below `minimum_credit`) -/
 def linearCredit (after steps : Nat) (minc : Rat) (attempt : Int) : Rat :=
   if attempt = 1 then 1 else
   if attempt - after ≤ 0 then 1 else
-  if attempt - after ≥ steps then round4 minc
-  else round4 (1 + (minc - 1) * ((attempt - after : Int) : Rat) / steps)
+  if attempt - after ≥ steps then rmax (round4 minc) minc
+  else rmax (round4 (1 + (minc - 1) * ((attempt - after : Int) : Rat) / steps)) minc
 
 /-- `GeometricCredit.__call__` for attempts ≥ 1 (`factor ** (attempt-1)`; below 1 the exponent is negative:
     outside the modelled domain, the grader never calls it there, see `C17.schedule_arg_ge_one`). -/
